@@ -3,8 +3,8 @@ package main
 // rules_train.go — training / quantisation rules (C20) and argmin rules shared with C13, C14, C15.
 
 import (
-	"go/constant"
 	"fmt"
+	"go/constant"
 	"go/token"
 	"go/types"
 	"sort"
